@@ -246,7 +246,7 @@ Proof. vm_compute. repeat split; reflexivity. Qed.
 
 (* ================================================================== (G) the flag word of the native converter *)
 (* conv/j2t toFlags from the Go source (gen/Gen_j2tflags.v): the options of the model that travel to the native code in the flag word
-   (write options, ReadHttpValueFallback = F_TRACE_BACK, NoBase64Binary) arrive as the model's option record, with F_HTTP_MAPPING set *)
+   (write options, ReadHttpValueFallback or TracebackRequredOrRootFields = F_TRACE_BACK (repair of finding 1711), NoBase64Binary) arrive as the model's option record, with F_HTTP_MAPPING set *)
 From DG Require Import NativeFlags Gen_j2tflags GenJ2tflagsProofs.
 Theorem C17_toFlags_denotes_hopts :
   forall h : hopts,
@@ -255,7 +255,7 @@ Theorem C17_toFlags_denotes_hopts :
   flag_on (toFlags (opts_of_hopts h)) NF_WRITE_REQUIRE = o_wr h /\
   flag_on (toFlags (opts_of_hopts h)) NF_WRITE_DEFAULT = o_wd h /\
   flag_on (toFlags (opts_of_hopts h)) NF_WRITE_OPTIONAL = o_wo h /\
-  flag_on (toFlags (opts_of_hopts h)) NF_TRACE_BACK = o_rhf h /\
+  flag_on (toFlags (opts_of_hopts h)) NF_TRACE_BACK = (o_rhf h || o_tb h) /\
   flag_on (toFlags (opts_of_hopts h)) NF_NO_BASE64 = o_nob64 h /\
   flag_on (toFlags (opts_of_hopts h)) NF_VALUE_MAPPING = false /\ flag_on (toFlags (opts_of_hopts h)) NF_STRING_INT = false.
 Proof. exact toFlags_hopts. Qed.
